@@ -50,6 +50,18 @@ def self_fields(node: ast.AST) -> set[str]:
     return {n.attr for n in ast.walk(node) if isinstance(n, ast.Attribute) and is_name(n.value, "self")}
 
 
+def _recurses_over_children(fn_node) -> bool:
+    """``for <x> in <first parameter>.children(): ... <this function>(<x>, ...)`` on every such loop"""
+    p0 = fn_node.args.args[0].arg if fn_node.args.args else "expression"
+    loops = [x for x in ast.walk(fn_node) if isinstance(x, (ast.For, ast.AsyncFor)) and isinstance(x.iter, ast.Call) and callee_name(x.iter) == "children" and text(call_recv(x.iter)) == p0 and isinstance(x.target, ast.Name)]
+    if not loops:
+        return False
+    for lp in loops:
+        if not any(isinstance(c, ast.Call) and is_name(c.func, fn_node.name) and c.args and is_name(c.args[0], lp.target.id) for c in ast.walk(lp)):
+            return False
+    return True
+
+
 def conditional_report(fn_node, fld: str):
     """None when ``self.<fld>`` is handed to the analyser by this ``children()`` / ``expressions()``
     under no condition other than on the field itself; otherwise a description of what its
@@ -426,7 +438,7 @@ def run(repo: Repo) -> Result:
     res.ob("filters:name")
     if "f.name" not in text(ef.node):
         res.add("C19-FILTERS", ef.qual, "name", "_extract_filters must report f.name", ef.file, ef.line)
-    if "for expr in expression.children()" not in text(ef.node).replace("\n", " "):
+    if not _recurses_over_children(ef.node):
         res.add("C19-FILTERS", ef.qual, "recursion", "_extract_filters must recurse into expression.children()", ef.file, ef.line)
 
     # ---- C19-VISIT ----------------------------------------------------------------------
@@ -434,20 +446,35 @@ def run(repo: Repo) -> Result:
         f = repo.func(fq)
         src = text(f.node)
         res.ob(f"visit:{fq}", 6)
-        need = {
-            "tags": "tags[node.token.value].append(",
-            "expressions": "for expr in node.expressions():",
-            "variables": "_analyze_variables(",
-            "filters": "_extract_filters(expr, template_name)",
-            "template_scope": "for ident in node.template_scope():",
-            "partial_scope": "node.partial_scope()",
-            "block_scope": "scope.push(set(node.block_scope()))",
-            "children": "node.children(static_context, include_partials=include_partials)" if fq.endswith("analyze") else "node.children_async(static_context, include_partials=include_partials)",
-            "roots": "for node in template.nodes:",
+        visit0 = next((n for n in ast.walk(f.node) if isinstance(n, (ast.FunctionDef, ast.AsyncFunctionDef)) and n.name == "_visit"), None)
+        nd = visit0.args.args[0].arg if visit0 is not None and visit0.args.args else "node"
+        vnode = visit0 if visit0 is not None else f.node
+
+        def loops_over(method, root=vnode, recv=None):
+            recv = nd if recv is None else recv
+            return [x for x in ast.walk(root) if isinstance(x, (ast.For, ast.AsyncFor)) and isinstance(unwrap_await(x.iter), ast.Call) and callee_name(unwrap_await(x.iter)) == method and text(call_recv(unwrap_await(x.iter))) == recv]
+
+        def calls_named(name, root=vnode):
+            return [c for c in ast.walk(root) if isinstance(c, ast.Call) and callee_name(c) == name]
+
+        expr_loops = loops_over("expressions")
+        expr_vars = {lp.target.id for lp in expr_loops if isinstance(lp.target, ast.Name)}
+        child_method = "children" if fq.endswith("analyze") else "children_async"
+        child_loops = loops_over(child_method)
+        have = {
+            "tags": any(callee_name(c) == "append" and isinstance(call_recv(c), ast.Subscript) and text(call_recv(c).slice) == f"{nd}.token.value" for c in ast.walk(vnode) if isinstance(c, ast.Call)),
+            "expressions": bool(expr_loops),
+            "variables": any(c.args and isinstance(c.args[0], ast.Name) and c.args[0].id in expr_vars for c in calls_named("_analyze_variables")),
+            "filters": any(c.args and isinstance(c.args[0], ast.Name) and c.args[0].id in expr_vars for c in calls_named("_extract_filters")),
+            "template_scope": bool(loops_over("template_scope")),
+            "partial_scope": any(text(call_recv(c)) == nd for c in calls_named("partial_scope")),
+            "block_scope": any(callee_name(c) == "push" and c.args and isinstance(c.args[0], ast.Call) and callee_name(c.args[0]) == "set" and c.args[0].args and isinstance(c.args[0].args[0], ast.Call) and callee_name(c.args[0].args[0]) == "block_scope" and text(call_recv(c.args[0].args[0])) == nd for c in ast.walk(vnode) if isinstance(c, ast.Call)),
+            "children": bool(child_loops) and all(any(k.arg == "include_partials" and text(k.value) == "include_partials" for k in unwrap_await(lp.iter).keywords) for lp in child_loops),
+            "roots": bool([x for x in ast.walk(f.node) if isinstance(x, (ast.For, ast.AsyncFor)) and text(x.iter) == "template.nodes"]),
         }
-        for k, frag in need.items():
-            if frag not in src:
-                res.add("C19-VISIT", fq, k, f"{fq}: the visit no longer contains `{frag}` — {k} of visited nodes are not collected", f.file, f.line)
+        for k, ok_ in have.items():
+            if not ok_:
+                res.add("C19-VISIT", fq, k, f"{fq}: the visit no longer collects the {k} of visited nodes", f.file, f.line)
         # evaluate-before-bind: a node's own expressions are analysed against the scope as it was
         # *before* the node's template-scope names are added (render evaluates `x | plus: 1` before
         # `assign x = ...` binds x), and children are visited after the block scope is pushed.
@@ -463,10 +490,11 @@ def run(repo: Repo) -> Result:
                 return None
 
             def loop_over(method):
-                return lambda x: isinstance(x, (ast.For, ast.AsyncFor)) and isinstance(x.iter, ast.Call) and callee_name(x.iter) == method and is_name_(call_recv(x.iter), "node")
+                return lambda x: isinstance(x, (ast.For, ast.AsyncFor)) and isinstance(x.iter, ast.Call) and callee_name(x.iter) == method and is_name_(call_recv(x.iter), nd)
 
             p_expr = pos_of(loop_over("expressions"))
-            p_bind = pos_of(lambda x: isinstance(x, ast.Call) and callee_name(x) == "add" and is_name_(call_recv(x), "scope"))
+            sc_ = visit.args.args[2].arg if len(visit.args.args) > 2 else "scope"
+            p_bind = pos_of(lambda x: isinstance(x, ast.Call) and callee_name(x) == "add" and is_name_(call_recv(x), sc_))
             if p_expr is None or p_bind is None or not p_expr < p_bind:
                 res.add(
                     "C19-VISIT",
@@ -479,7 +507,10 @@ def run(repo: Repo) -> Result:
     av = repo.func("liquid.static_analysis._analyze_variables")
     res.ob(av.qual, 2)
     s = text(av.node)
-    if "isinstance(expression, Path)" not in s or "variables.add(var)" not in s or "for expr in expression.children():" not in s:
+    p_expr0, p_vars0 = av.params()[0], av.params()[4] if len(av.params()) > 4 else "variables"
+    var_locals = {st_.targets[0].id for st_ in ast.walk(av.node) if isinstance(st_, ast.Assign) and len(st_.targets) == 1 and isinstance(st_.targets[0], ast.Name) and isinstance(st_.value, ast.Call) and callee_name(st_.value) == "Variable"}
+    records = any(callee_name(c) == "add" and text(call_recv(c)) == p_vars0 and c.args and isinstance(c.args[0], ast.Name) and c.args[0].id in var_locals for c in ast.walk(av.node) if isinstance(c, ast.Call))
+    if f"isinstance({p_expr0}, Path)" not in s or not records or not _recurses_over_children(av.node):
         res.add("C19-VISIT", av.qual, "shape", "_analyze_variables must record every Path and recurse into expression.children()", av.file, av.line)
     # a path whose *root segment* is not in scope is reported as a global: `if <root> not in scope:
     # globals.add(var)`, where <root> is str(var.segments[0]) — written in place, bound to a local,
@@ -495,8 +526,8 @@ def run(repo: Repo) -> Result:
         if isinstance(e, ast.Name) and e.id in la:
             return is_root_expr(la[e.id], depth + 1)
         if isinstance(e, ast.Call) and is_name_(e.func, "str") and len(e.args) == 1:
-            return text(e.args[0]) in ("var.segments[0]", "self.segments[0]")
-        if isinstance(e, ast.Attribute) and is_name_(e.value, "var"):
+            return text(e.args[0]) == "self.segments[0]" or any(text(e.args[0]) == f"{v_}.segments[0]" for v_ in var_locals)
+        if isinstance(e, ast.Attribute) and isinstance(e.value, ast.Name) and e.value.id in var_locals:
             prop = vcls.methods.get(e.attr)
             if prop is not None and "property" in prop.decorators():
                 rets = [r.value for r in walk_no_nested(prop.node) if isinstance(r, ast.Return) and r.value is not None]
@@ -505,8 +536,8 @@ def run(repo: Repo) -> Result:
 
     g_ok = False
     for n in ast.walk(av.node):
-        if isinstance(n, ast.If) and isinstance(n.test, ast.Compare) and len(n.test.ops) == 1 and isinstance(n.test.ops[0], ast.NotIn) and is_name_(n.test.comparators[0], "scope") and is_root_expr(n.test.left):
-            if any(isinstance(c, ast.Call) and callee_name(c) == "add" and is_name_(c.func.value if isinstance(c.func, ast.Attribute) else None, "globals") and c.args and is_name_(c.args[0], "var") for st_ in n.body for c in ast.walk(st_)) and not n.orelse:
+        if isinstance(n, ast.If) and isinstance(n.test, ast.Compare) and len(n.test.ops) == 1 and isinstance(n.test.ops[0], ast.NotIn) and is_name_(n.test.comparators[0], av.params()[2]) and is_root_expr(n.test.left):
+            if any(isinstance(c, ast.Call) and callee_name(c) == "add" and is_name_(c.func.value if isinstance(c.func, ast.Attribute) else None, av.params()[3]) and c.args and isinstance(c.args[0], ast.Name) and c.args[0].id in var_locals for st_ in n.body for c in ast.walk(st_)) and not n.orelse:
                 g_ok = True
     if not g_ok:
         res.add("C19-VISIT", av.qual, "globals", "_analyze_variables must report a path whose root is not in scope as a global", av.file, av.line)
